@@ -86,6 +86,16 @@ class GetMembersMixin:
 
 # FIXME: Are `aliases` in other objects correctly updated when we delete a member?
 # Would weak references be useful there?
+def _forget_aliases(obj: Object | Alias) -> None:
+    # An object leaves the tree (deleted, or replaced by another one): the aliases it is,
+    # or contains, are not listed by their targets anymore.
+    if obj.is_alias:
+        obj._forget_target()  # type: ignore[union-attr]
+    else:
+        for member in obj.members.values():
+            _forget_aliases(member)
+
+
 class DelMembersMixin:
     """Mixin class to share methods for deleting members.
 
@@ -115,6 +125,7 @@ class DelMembersMixin:
         if len(parts) == 1:
             name = parts[0]
             try:
+                _forget_aliases(self.members[name])  # type: ignore[attr-defined]
                 del self.members[name]  # type: ignore[attr-defined]
             except KeyError:
                 del self.inherited_members[name]  # type: ignore[attr-defined]
@@ -141,6 +152,7 @@ class DelMembersMixin:
         parts = _get_parts(key)
         if len(parts) == 1:
             name = parts[0]
+            _forget_aliases(self.members[name])  # type: ignore[attr-defined]
             del self.members[name]  # type: ignore[attr-defined]
         else:
             self.members[parts[0]].del_member(parts[1:])  # type: ignore[attr-defined]
@@ -172,6 +184,9 @@ class SetMembersMixin:
         parts = _get_parts(key)
         if len(parts) == 1:
             name = parts[0]
+            previous = self.members.get(name)  # type: ignore[attr-defined]
+            if previous is not None and previous is not value:
+                _forget_aliases(previous)
             self.members[name] = value  # type: ignore[attr-defined]
             if self.is_collection:  # type: ignore[attr-defined]
                 value._modules_collection = self  # type: ignore[union-attr]
@@ -200,6 +215,7 @@ class SetMembersMixin:
         if len(parts) == 1:
             name = parts[0]
             aliases_to_update: list = []
+            merged = False
             if name in self.members:  # type: ignore[attr-defined]
                 member = self.members[name]  # type: ignore[attr-defined]
                 if not member.is_alias:
@@ -214,7 +230,11 @@ class SetMembersMixin:
                             if value.is_module and value.filepath != member.filepath and not isinstance(value.filepath, list):
                                 with suppress(ValueError):
                                     value = merge_stubs(member, value)  # type: ignore[arg-type]
+                                    merged = True
                     aliases_to_update = list(member.aliases.values())
+                # (When two modules are merged, the members of the one that goes away live on in the other.)
+                if member is not value and not merged:
+                    _forget_aliases(member)
             self.members[name] = value  # type: ignore[attr-defined]
             if self.is_collection:  # type: ignore[attr-defined]
                 value._modules_collection = self  # type: ignore[union-attr]
